@@ -30,8 +30,8 @@ claimed.update({
          "time bounds are judged with the stall move switched off"),
  "C14": ("list failure kind {error, non-list, list of non-objects, no Items, nil} x position k=1..5 enumerated by run index with subscriber trees attached: Done() closes, Error() non-nil and naming the cause, Ready() stays open for k=1, whole subtree down; watch failures of every kind and dead watches never stop the controller; deliberate Close() leaves Error() == nil",
          ""),
- "C15": ("cache actor with 1-2 writers (sync/update/refilter, unique versions) and 1-6 readers (List/Get, some scribbling on the returned slice); cache.go rebuilt with a preemption point before every statement; recorded invoke/return history (global event counter) checked with porcupine against the reference cache (10 s budget, Unknown never reported)",
-         "data races proper (hardware reordering) are outside a schedule-level simulator; the vector-clock tracker sketched in the design was not built"),
+ "C15": ("cache actor with 1-2 writers (sync/update/refilter, unique versions) and 1-6 readers (List/Get, some scribbling on the returned slice); cache.go rebuilt with a preemption point before every statement; recorded invoke/return history (global event counter) checked with porcupine against the reference cache (10 s budget, Unknown never reported); one run in eight uses complete states of 9..1030 objects (readers must only see complete states, never go backwards)",
+         "also: an ownership tracker (kcinstr -owner) reports any mutable field of cache.go's structs touched by two goroutines without lock / initialise-then-spawn ordering as data-race:<field>; hardware reordering is outside a schedule-level simulator; full vector-clock happens-before was not built"),
  "C16": ("monitors on controllers, clones and filtered clones with handlers that sleep on the simulated clock or yield; Close of monitor/publisher/root incl. before readiness; OnInitialize first and at most once, no callback before the publisher is ready, never two callbacks at once, none after Done(), init list + callbacks replay to the publisher cache",
          "replay tolerates the documented overlap between the initial List() and already queued events; typed monitors are covered by C20"),
 })
